@@ -57,12 +57,23 @@ func DumpCtor(r *Run, twin int) {
 // goroutine, the public DeleteExpired of both cache types.
 func c15Opaque(r *Run, ctorSide bool) map[*ssa.Function]string {
 	out := map[*ssa.Function]string{}
+	// the configuration type: what the constructors take (their variadic parameter's element type)
+	cfgTypes := map[string]bool{}
+	for i := 0; i < 2; i++ {
+		if ctor := r.M.CacheCtor[i]; ctor != nil && len(ctor.Params) > 0 {
+			if sl, ok := ctor.Params[len(ctor.Params)-1].Type().Underlying().(*types.Slice); ok {
+				if n, ok := types.Unalias(sl.Elem()).(*types.Named); ok {
+					cfgTypes[n.Obj().Name()] = true
+				}
+			}
+		}
+	}
 	for _, f := range r.P.Funcs {
 		if f.Pkg != r.P.Cache || f.Parent() != nil || f.Signature.Recv() != nil {
 			continue
 		}
 		if f.Signature.Params().Len() == 0 && f.Signature.Results().Len() == 1 {
-			if st := core.StructOf(f.Signature.Results().At(0).Type()); st != nil {
+			if n, ok := types.Unalias(f.Signature.Results().At(0).Type()).(*types.Named); ok && cfgTypes[n.Obj().Name()] {
 				out[f] = "defaultConfig"
 			}
 		}
@@ -310,7 +321,11 @@ func c15Body(r *Run, rep *core.Report, twin int, gev sym.Event, done, cut []sym.
 				if tick == nil && len(e.Args) > 0 {
 					tick = e.Args[0]
 				}
-			case "recv", "send", "opqcall", "icall", "callback", "usercall", "mapop", "close", "go", "selectdefault", "settingstore", "itemsstore":
+			case "opqcall":
+				if e.Name == "DeleteExpired" {
+					evs = append(evs, e)
+				}
+			case "recv", "send", "icall", "callback", "usercall", "mapop", "close", "go", "selectdefault", "settingstore", "itemsstore":
 				// (calls of diagnostic hooks the library keeps and of functions outside the module - dyncall, diag, extcall -
 				// are not the janitor's business: they remove nothing from the map and start nothing)
 				evs = append(evs, e)
